@@ -8,7 +8,6 @@ import (
 	"github.com/MichaelMure/git-bug/entities/identity"
 	"github.com/MichaelMure/git-bug/entity"
 	"github.com/MichaelMure/git-bug/repository"
-	"github.com/MichaelMure/git-bug/util/multierr"
 )
 
 func (c *RepoCache) Name() string {
@@ -84,11 +83,14 @@ func (c *RepoCache) Fetch(remote string) (string, error) {
 
 // RemoveAll deletes all entities from the cache and the disk.
 func (c *RepoCache) RemoveAll() error {
-	var errWait multierr.ErrWaitGroup
+	// One sub-cache after the other: removing references is not safe to do from several
+	// goroutines (two concurrent rewrites of packed-refs lose one of the removals).
 	for _, mgmt := range c.subcaches {
-		errWait.Go(mgmt.RemoveAll)
+		if err := mgmt.RemoveAll(); err != nil {
+			return err
+		}
 	}
-	return errWait.Wait()
+	return nil
 }
 
 // MergeAll will merge all the available remote bug and identities
